@@ -7,11 +7,13 @@ from vlib import log
 FAMILY = "MultiClient"
 RULE = ("schedules = configuration (P primaries, B fallbacks, call style att/sync/submit, outcome per node: ok, "
         "unsuccessful output, 16 error variants of the unavailability classes timeout/syncing/gateway/unreachable, 5 other "
-        "errors, hang) + Call / NodeDone(i) in every completion order / CancelCaller(cancel|deadline) anywhere; generated "
-        "(a) by TLC simulation of MultiClientGen, (b) by enumeration of all outcome-class vectors for P<=3,B<=2 with "
-        "seeded completion orders, (c) by a seeded random generator (P<=6, B<=3, mixed classes, late successes, hung "
-        "nodes, cancellation); executed on eth2wrap.NewMultiForT over gated nodes inside a testing/synctest bubble; "
-        "distinct = distinct recorded traces")
+        "errors, hang; per node: honours / ignores its request context) + Call / NodeDone(i) in every completion order "
+        "(a stuck node released late or only at the end of the schedule) / CancelCaller(cancel|deadline) anywhere; "
+        "generated (a) by TLC simulation of MultiClientGen, (b) by enumeration of all outcome-class vectors for P<=3,B<=2 "
+        "with seeded completion orders, and again with every choice of 1-2 context-ignoring nodes, (c) by a seeded random "
+        "generator (P<=6, B<=3, mixed classes, late successes, hung nodes, stuck nodes in the primary / fallback stage, "
+        "cancellation); executed on eth2wrap.NewMultiForT over gated nodes inside a testing/synctest bubble (virtual "
+        "clock, the Return carries its virtual time); distinct = distinct recorded traces")
 
 VARIANTS = {
     "ok": ["ok"], "nok": ["nok"], "hang": ["hang"],
@@ -32,15 +34,16 @@ def concretise(r, sched):
     return [cfg] + list(sched[1:])
 
 
-def as_coded(P, B, cls, order_p, order_f, cancel_at, how, pre_cancel):
+def as_coded(P, B, cls, order_p, order_f, cancel_at, how, pre_cancel, keep_stuck=()):
     """Steps for one scenario; the driver skips releases of nodes that were not consulted, so no knowledge of the
-    implementation's fallback decision is needed here."""
+    implementation's fallback decision is needed here.  keep_stuck: nodes (deaf ones) that are not released before the
+    end of the schedule."""
     steps = []
     if pre_cancel:
         steps.append({"ev": "CancelCaller", "how": how})
     steps.append({"ev": "Call"})
-    rel = [{"ev": "NodeDone", "i": i} for i in order_p if cls[i - 1] != "hang"]
-    rel += [{"ev": "NodeDone", "i": i} for i in order_f if cls[i - 1] != "hang"]
+    rel = [{"ev": "NodeDone", "i": i} for i in order_p if cls[i - 1] != "hang" and i not in keep_stuck]
+    rel += [{"ev": "NodeDone", "i": i} for i in order_f if cls[i - 1] != "hang" and i not in keep_stuck]
     if cancel_at is not None and not pre_cancel:
         rel.insert(min(cancel_at, len(rel)), {"ev": "CancelCaller", "how": how})
     return steps + rel
@@ -67,11 +70,57 @@ def enumerated(seed, thorough):
     return out
 
 
+def stuck_order(r, ids, deaf):
+    """Completion order in which the nodes that ignore their context answer late (after the others of their stage)
+    most of the time; returns (order, nodes never released)."""
+    ids = list(ids)
+    r.shuffle(ids)
+    d = [i for i in ids if deaf[i - 1]]
+    mode = r.choice(["last", "last", "never", "never", "free"])
+    if mode == "free":
+        return ids, ()
+    rest = [i for i in ids if not deaf[i - 1]]
+    if mode == "last":
+        return rest + d, ()
+    keep = set(d if r.random() < 0.6 else r.sample(d, r.randint(0, len(d))))
+    return rest + [i for i in d if i not in keep], keep
+
+
+def enumerated_stuck(seed, thorough):
+    """Every outcome-class vector for P+B <= 3 (thorough: P<=3, B<=2) x every choice of one or two nodes that ignore
+    their request context; the stuck nodes answer last, never (released at the end of the schedule) or anywhere;
+    every third scenario has the caller cancel somewhere."""
+    r = vlib.rng(seed, "c19stuck")
+    out = []
+    for P in (1, 2, 3):
+        for B in (0, 1, 2):
+            n = P + B
+            if n > 3 and not thorough:
+                continue
+            for style in ("att", "sync", "submit"):
+                cs = classes_of(style)
+                for cls in itertools.product(cs, repeat=n):
+                    for k in (1, 2):
+                        for dset in itertools.combinations(range(1, n + 1), k):
+                            if r.random() > (1.0 if n <= 2 else (0.35 if not thorough else (1.0 if n <= 3 else 0.1))):
+                                continue
+                            deaf = [i in dset for i in range(1, n + 1)]
+                            op, k1 = stuck_order(r, range(1, P + 1), deaf)
+                            of, k2 = stuck_order(r, range(P + 1, n + 1), deaf)
+                            cancel_at = r.randint(0, n) if r.random() < 0.34 else None
+                            out.append([{"ev": "Cfg", "P": P, "B": B, "style": style, "deaf": deaf,
+                                         "out": [r.choice(VARIANTS[c]) for c in cls]}]
+                                       + as_coded(P, B, cls, op, of, cancel_at, r.choice(["cancel", "deadline"]), False,
+                                                  set(k1) | set(k2)))
+    return out
+
+
 def random_schedules(seed, n):
     r = vlib.rng(seed, "c19rnd")
     out = []
     for _ in range(n):
-        kind = r.choice(["mixed", "allunavail", "allother", "lateok", "hangs", "cancel", "precancel", "nokmix", "big"])
+        kind = r.choice(["mixed", "allunavail", "allother", "lateok", "hangs", "cancel", "precancel", "nokmix", "big",
+                         "stuckok", "stuckok", "stuckcancel", "stuckfall", "stuckmix"])
         P = r.randint(1, 4)
         B = r.randint(0, 2)
         if kind == "big":
@@ -97,24 +146,63 @@ def random_schedules(seed, n):
         cls += [r.choice(cs) for _ in range(B)]
         prim = list(range(1, P + 1))
         fall = list(range(P + 1, P + B + 1))
+        deaf = [False] * (P + B)
+        keep = set()
+        if kind == "stuckok":         # a primary answers successfully while another one is stuck (never / late released)
+            P = max(P, 2)
+            cls = [r.choice(cs) for _ in range(P)] + cls[len(prim):]
+            prim, fall = list(range(1, P + 1)), list(range(P + 1, P + B + 1))
+            deaf = [False] * (P + B)
+            ok = r.randrange(P)
+            cls[ok] = "ok"
+            for i in r.sample([j for j in range(P) if j != ok], r.randint(1, min(2, P - 1))):
+                deaf[i] = True
+                if r.random() < 0.5:
+                    cls[i] = r.choice(["ok", "hang"])
+        elif kind == "stuckcancel":   # the caller cancels while a stuck node and one that honours its context are running
+            P = max(P, 2)
+            cls = [r.choice(["hang", "hang", "ok", "unavail", "other"]) for _ in range(P)] + cls[len(prim):]
+            prim, fall = list(range(1, P + 1)), list(range(P + 1, P + B + 1))
+            deaf = [False] * (P + B)
+            for i in r.sample(range(P), r.randint(1, P - 1)):
+                deaf[i] = True
+        elif kind == "stuckfall":     # the fallback stage is consulted and has a stuck node next to one that answers
+            B = max(B, 2)
+            cls = ["unavail"] * P + [r.choice(cs) for _ in range(B)]
+            prim, fall = list(range(1, P + 1)), list(range(P + 1, P + B + 1))
+            deaf = [False] * (P + B)
+            ok = P + r.randrange(B)
+            if r.random() < 0.7:
+                cls[ok] = "ok"
+            for i in r.sample([j for j in range(P, P + B) if j != ok], r.randint(1, B - 1)):
+                deaf[i] = True
+        elif kind == "stuckmix":
+            deaf = [r.random() < 0.4 for _ in range(P + B)]
         op = r.sample(prim, P)
         if kind == "lateok":  # the successful node answers last of those that answer
             ok = [i for i in op if cls[i - 1] == "ok"]
             op = [i for i in op if cls[i - 1] != "ok"] + ok
         of = r.sample(fall, B)
+        if any(deaf):
+            op, k1 = stuck_order(r, prim, deaf)
+            of, k2 = stuck_order(r, fall, deaf)
+            keep = set(k1) | set(k2)
         cancel_at = None
         pre = False
         how = r.choice(["cancel", "deadline"])
-        if kind == "cancel" or r.random() < 0.15:
+        if kind in ("cancel", "stuckcancel") or r.random() < 0.15:
             cancel_at = r.randint(0, P + B)
+            if kind == "stuckcancel":
+                cancel_at = r.randint(0, max(0, P - 1 - len([i for i in prim if i in keep or cls[i - 1] == "hang"])))
         if kind == "precancel":
             pre = True
-        steps = as_coded(P, B, cls, op, of, cancel_at, how, pre)
+        steps = as_coded(P, B, cls, op, of, cancel_at, how, pre, keep)
         if r.random() < 0.2:  # releases in an order that mixes primaries and fallbacks (unconsulted ones are skipped)
             head, tail = steps[:1 + (1 if pre else 0)], steps[1 + (1 if pre else 0):]
             r.shuffle(tail)
             steps = head + tail
-        out.append([{"ev": "Cfg", "P": P, "B": B, "style": style, "out": [r.choice(VARIANTS[c]) for c in cls]}] + steps)
+        out.append([{"ev": "Cfg", "P": P, "B": B, "style": style, "deaf": deaf,
+                     "out": [r.choice(VARIANTS[c]) for c in cls]}] + steps)
     return out
 
 
